@@ -285,7 +285,7 @@ def _real(p):
         for choices, orders in runs:
             tag = "sched=" + ("".join(map(str, choices)) or "-")
             ok_order = False
-            if time.time() - t_start > 90.0:
+            if time.time() - t_start > 45.0:
                 # only reachable when replays need their slow retries (never on a tree where orders reproduce)
                 o.stat("caps_hit", 1)
                 o.note("real_pool_replay_time_cap_hit_after", validated)
